@@ -20,12 +20,12 @@ Import ListNotations.
 Local Open Scope Z_scope.
 
 (* ---------------------------------------------------------------- TypeInfo values the chain tests *)
-Inductive ty := TInt | TLong | TDouble | TFloat | TVoid | TUnknown | TOther.
+Inductive ty := TInt | TLong | TDouble | TFloat | TVoid | TPointer | TUnknown | TOther.
 
 Definition ty_eqb (a b : ty) : bool :=
   match a, b with
   | TInt, TInt | TLong, TLong | TDouble, TDouble | TFloat, TFloat
-  | TVoid, TVoid | TUnknown, TUnknown | TOther, TOther => true
+  | TVoid, TVoid | TPointer, TPointer | TUnknown, TUnknown | TOther, TOther => true
   | _, _ => false
   end.
 
@@ -63,6 +63,20 @@ Definition trunc_i64 (b : Z) : Z :=
   else let s := 2 ^ 52 + dbl_man b in
        let mag := if e <? 1075 then s / 2 ^ (1075 - e) else s * 2 ^ (e - 1075) in
        if dbl_sign b =? 1 then - mag else mag.
+
+(* static_cast<double>(int64_t): the nearest double, ties to even (cvtsi2sd), as a bit pattern *)
+Definition double_of_i64 (v : Z) : Z :=
+  if v =? 0 then 0
+  else let m := Z.abs v in
+       let e := Z.log2 m in
+       let q0 := if e <=? 52 then m * 2 ^ (52 - e)
+                 else let sh := e - 52 in
+                      let q := m / 2 ^ sh in
+                      let r := m mod 2 ^ sh in
+                      let half := 2 ^ (sh - 1) in
+                      if (half <? r) || ((r =? half) && Z.odd q) then q + 1 else q in
+       let (e', q') := if q0 =? 2 ^ 53 then (e + 1, 2 ^ 52) else (e, q0) in
+       (if v <? 0 then 2 ^ 63 else 0) + (e' + 1023) * 2 ^ 52 + (q' - 2 ^ 52).
 
 (* a value as the native function sees it / returns it *)
 Inductive cval := CInt (z : Z) | CLong (z : Z) | CDouble (bits : Z) | CVoid.
@@ -202,8 +216,10 @@ Record fdecl := mk_fdecl {
 Inductive dty := DPlain (t : ty) | DPtr (t : ty).
 Definition decl_ctype (d : fdecl) : (ty * list dty)%type :=
   (fd_ret d, map (fun p : (ty * bool)%type => if snd p then DPtr (fst p) else DPlain (fst p)) (fd_params d)).
-(* processForeignModule: sig.parameters.push_back({param.type, param.name}) - is_pointer is dropped *)
-Definition decl_sig (d : fdecl) : csig := mk_csig (fd_ret d) (map (fun p : (ty * bool)%type => fst p) (fd_params d)).
+(* processForeignModule: sig.parameters.push_back({param.is_pointer ? TYPE_POINTER : param.type, param.name}) *)
+Definition dty_ty (d : dty) : ty := match d with DPlain t => t | DPtr _ => TPointer end.
+Definition decl_sig (d : fdecl) : csig :=
+  mk_csig (fd_ret d) (map (fun p : (ty * bool)%type => if snd p then TPointer else fst p) (fd_params d)).
 
 Record ffi_state := mk_st {
   st_loaded : list nat;                      (* keys of loaded_libraries_ *)
@@ -276,7 +292,8 @@ Section Calls.
   Definition build_arg (tv : typed_value) : var :=
     if tv_is_float tv || is_fp (tv_type tv)
     then mk_var (match tv_type tv with TUnknown => TDouble | t => t end) (trunc_i64 (tv_dbl tv)) (tv_dbl tv)
-    else mk_var (tv_type tv) (tv_value tv) 0.        (* string and integer branches: only .value is set *)
+    else if tv_is_string tv then mk_var (tv_type tv) (tv_value tv) 0      (* string branch: only .value (and str_value) *)
+    else mk_var (tv_type tv) (tv_value tv) (double_of_i64 (tv_value tv)). (* integer branch: value and (double) value *)
 
   Inductive site_result :=
   | SValue (is_double : bool) (v : Z)    (* value handed back to the evaluator: bits when is_double *)
@@ -286,15 +303,18 @@ Section Calls.
   Definition site_value (r : var) : site_result :=
     if is_fp (v_type r) then SValue true (v_dbl r) else SValue false (v_value r).
 
+  (* both sites: if (result.type == TYPE_UNKNOWN) { cerr << "Error: FFI call failed: ..."; exit(1); } *)
+  Definition site_outcome (out : outcome) : (site_result * option call)%type :=
+    match v_type (o_res out) with
+    | TUnknown => (SExit (match o_err out with Some e => e | None => ENotRegistered end), o_call out)
+    | _ => (site_value (o_res out), o_call out)
+    end.
+
   (* module.f(args)   with `module` a loaded foreign module *)
   Definition qualified_call (st : ffi_state) (m f : nat) (tvs : list typed_value)
     : (site_result * option call)%type :=
     if negb (mem_nat m (st_loaded st)) then (SNotForeign, None)
-    else let out := call_function st m f (map build_arg tvs) in
-         match v_type (o_res out) with
-         | TUnknown => (SExit (match o_err out with Some e => e | None => ENotRegistered end), o_call out)
-         | _ => (site_value (o_res out), o_call out)
-         end.
+    else site_outcome (call_function st m f (map build_arg tvs)).
 
   (* callForeignFunction: the first module (std::map order = ascending name) declaring f *)
   Fixpoint min_module (fns : list (nat * nat * csig)%type) (f : nat) (best : option nat) : option nat :=
@@ -306,13 +326,12 @@ Section Calls.
                            else best)
     end.
 
-  (* f(args)  with f registered as a foreign function: the TYPE_UNKNOWN result is NOT tested here *)
+  (* f(args)  with f registered as a foreign function; TYPE_UNKNOWN -> diagnostic + exit(1) here too *)
   Definition unqualified_call (st : ffi_state) (f : nat) (tvs : list typed_value)
     : (site_result * option call)%type :=
     match min_module (st_fns st) f None with
     | None => (SNotForeign, None)
-    | Some m => let out := call_function st m f (map build_arg tvs) in
-                (site_value (o_res out), o_call out)
+    | Some m => site_outcome (call_function st m f (map build_arg tvs))
     end.
 
   (* ------------------------------------------------------------ histories *)
